@@ -61,7 +61,10 @@ RULE = (
     "multiplicity > 1 (permanent/hafnian) or >= 2 modes (torontonian) / n >= 4 (Pfaffian), "
     "and |ref| > 1e-6 S (not pure cancellation); distinct by hash of the case description. "
     "Native part: libFuzzer inputs decoded to (kernel, dims <= 6, multiplicities, entries, "
-    "precision) compared inside the ASan+UBSan target with long-double defining sums."
+    "precision) compared inside the ASan+UBSan target with long-double defining sums. "
+    "Domain limit: row multiplicities whose binomial product bound exceeds 2**63 (int64 of the "
+    "algorithm, ~64 photons on two rows) are excluded and counted; generated totals are <= 40 "
+    "(<= 60 in the enumerated F3 regression part)."
 )
 ASSUMPTIONS = [
     "oracles: Python integer arithmetic on exactly converted inputs (lib/oracles.py), "
@@ -85,10 +88,17 @@ K_TOL = 64.0
 U64 = 2.0 ** -53
 U32 = 2.0 ** -24
 INT31 = 2 ** 31
+INT63 = 2 ** 63
 NC = NumpyConnector()
 
+# F3 (fixed by 160e414): the running binomial product was an `int`.  Failures whose row
+# multiplicities lie in the former trigger region (product bound >= 2**31) keep these buckets,
+# so a regression of that fix is recognised by name.
 B_PERM_OVF = "C04:permanent:binomial-int-overflow"
 B_LAP_OVF = "C04:permanent_laplace:binomial-int-overflow"
+# remaining documented limit of the native permanent: the product is an int64_t
+B_PERM_I64 = "C04:permanent:binomial-int64-limit"
+B_LAP_I64 = "C04:permanent_laplace:binomial-int64-limit"
 
 
 # =====================================================================================
@@ -379,7 +389,14 @@ def call_guarded(bucket_prefix, fn, *args):
 # =====================================================================================
 
 def perm_is_safe(rows) -> bool:
-    return O.binomial_overflow_bound(rows) < INT31
+    """Inside the domain of the native permanent: the running binomial product (int64_t
+    since 160e414) cannot overflow -- roughly 64 photons on two rows."""
+    return O.binomial_overflow_bound(rows) < INT63
+
+
+def in_int32_region(rows) -> bool:
+    """Former trigger region of F3 (the product would overflow a 32-bit int)."""
+    return O.binomial_overflow_bound(rows) >= INT31
 
 
 def _perm_call(kernel, via):
@@ -394,12 +411,11 @@ def prop_perm(case, ctx, region="main"):
         return
     rows, cols = list(case["rows"]), list(case["cols"])
     nr, nc = len(rows), len(cols)
-    safe = perm_is_safe(rows)
-    ovf_bucket = B_PERM_OVF if kernel == "permanent" else B_LAP_OVF
-    if region == "main" and not safe:
-        # the confirmed int-overflow trigger is probed by the dedicated part
-        ctx.exclude(ovf_bucket)
+    if not perm_is_safe(rows):
+        # beyond the int64 limit of the algorithm: outside the domain, counted
+        ctx.exclude(B_PERM_I64 if kernel == "permanent" else B_LAP_I64)
         return
+    safe = not in_int32_region(rows)  # selects the bucket name only
     A0 = build_complex(case["fam"], nr, nc, case["seed"], case["scale"])
     dtype = case["dtype"]
     if dtype in ("c64", "f32") and rows and cols and (
@@ -432,6 +448,8 @@ def prop_perm(case, ctx, region="main"):
         classes.append("mult_ge14")
     if n >= 20:
         classes.append("total_ge20")
+    if not safe:
+        classes.append("perm_int32_overflow_region")
     bprefix = f"C04:{kernel}"
 
     if kernel == "permanent":
@@ -478,7 +496,7 @@ def prop_perm(case, ctx, region="main"):
             check_value(ctx, f"{bprefix}:{tag}" if not safe else f"{bprefix}:value:{dtype}",
                         kernel, g, r, s, u, what)
         except Violation as v:
-            if safe and layout != "C":
+            if layout != "C":
                 # is it the layout or the value?
                 g2 = np.asarray(fn(np.ascontiguousarray(A), np.array(rows), np.array(cols)))
                 g2 = complex(g2) if l is None else complex(g2[l])
@@ -529,7 +547,8 @@ def mult_pattern(draw, safe_only=True):
         rows = _spread(draw, nr, tot, even=draw(st.booleans()))
         cols = _spread(draw, nc, tot, even=draw(st.booleans()))
     if safe_only:
-        # stay out of the confirmed overflow region by construction (shrink the rows)
+        # stay inside the int64 limit of the algorithm by construction (totals <= 40 always
+        # are; the loop is a guard for future generator changes)
         while not perm_is_safe(rows):
             i = rows.index(max(rows))
             rows[i] -= 1
@@ -595,32 +614,37 @@ def perm_cases(draw):
 
 
 def overflow_cases(tier):
-    """Dedicated probe of the confirmed trigger region of F3 (int binomial product)."""
+    """Enumerated regression of F3 (32-bit binomial product, fixed by 160e414): the former
+    trigger region and its boundary, compared with the exact big-int oracle under the
+    Glynn-sum tolerance.  Every case lies inside the int64 limit."""
     out = []
 
-    def add(kernel, rows, cols, fam="ones", dtype="c128", seed=1):
+    def add(kernel, rows, cols, fam="ones", dtype="c128", seed=1, scale=1.0):
         cols = list(cols)
         if kernel == "permanent_laplace":
             cols[0] += 1
         out.append({"k": kernel, "rows": list(rows), "cols": cols, "fam": fam, "seed": seed,
-                    "scale": 1.0, "dtype": dtype, "layout": "C", "mk": "int64",
+                    "scale": scale, "dtype": dtype, "layout": "C", "mk": "int64",
                     "via": "direct"})
 
     for kernel in ("permanent", "permanent_laplace"):
-        for m in (16, 17, 18, 19, 20):
+        for m in (16, 17, 18, 19, 20, 25, 30):
             add(kernel, [m, m], [m, m])
-            add(kernel, [m, m], [m, m], fam="gauss", seed=m)
+            add(kernel, [m, m], [m, m], fam="gauss", seed=m, scale=0.5 if m >= 25 else 1.0)
         add(kernel, [18, 18], [18, 18], dtype="c64", fam="unitary")
         add(kernel, [17, 19], [20, 16], fam="gauss", seed=5)
         add(kernel, [18, 19], [12, 12, 13], fam="gauss", seed=6)
         add(kernel, [30, 1], [16, 15], fam="gauss", seed=7)
+        add(kernel, [30, 1], [31], fam="ones")
         add(kernel, [35, 1], [18, 18], fam="gauss", seed=8)
         add(kernel, [36, 2], [19, 19], fam="gauss", seed=9)
+        add(kernel, [36, 2], [19, 19], fam="ones")
         add(kernel, [12, 12, 12], [12, 12, 12], fam="gauss", seed=10)
         add(kernel, [13, 13, 14], [20, 20], fam="gauss", seed=11)
         add(kernel, [10, 10, 10, 10], [20, 20], fam="gauss", seed=12)
-    out = [c for c in out if not perm_is_safe(c["rows"])
-           or c["rows"] in ([16, 16], [17, 17])]
+        add(kernel, [30, 30], [20, 20, 20], fam="unitary", seed=13)
+        add(kernel, [25, 25], [50], fam="int", seed=14)
+    assert all(perm_is_safe(c["rows"]) for c in out)
     return out
 
 
@@ -1004,6 +1028,8 @@ JAX_CASES = [
     {"rows": [9, 8], "cols": [8, 9], "fam": "gauss", "seed": 6},
     {"rows": [5, 5, 5], "cols": [7, 8], "fam": "rankdef", "seed": 7},
     {"rows": [1] * 6, "cols": [1] * 6, "fam": "unitary", "seed": 8},
+    {"rows": [19, 18], "cols": [18, 19], "fam": "gauss", "seed": 9},   # former F3 region
+    {"rows": [36, 2], "cols": [19, 19], "fam": "unitary", "seed": 10},
 ]
 _jax_state: dict = {}
 
@@ -1023,7 +1049,7 @@ def prop_jax(case, ctx):
     if _disabled(ctx, "permanent"):
         return
     if not perm_is_safe(rows):
-        ctx.exclude(B_PERM_OVF)
+        ctx.exclude(B_PERM_I64)
         return
     A = build_complex(case["fam"], len(rows), len(cols), case["seed"], 1.0)
     ref = O.permanent_ref(A, rows, cols)
